@@ -6,6 +6,8 @@ CONSTANTS
   CpropSet = {"nl", "na"}
   CmtSet = {"one", "multi", "na"}
   RuleSet = {"asc", "na"}
+  AtAttr = {"-"}
+  Extra = {}
 INVARIANT DesignAccepted
 INVARIANT StepAccepted
 CHECK_DEADLOCK FALSE
